@@ -60,7 +60,11 @@ func (g *G) stmt(bd int) []hs.Stmt {
 		// calls happen at statement level only: let v = f(pure args);
 		f := g.fns[g.pick("pureCallee", len(g.fns))]
 		c := hs.Call{Fn: hs.Ident{Name: f.name, T: hs.TFn(f.ret, f.params...)}, T: f.ret}
-		for _, p := range f.params {
+		for i, p := range f.params {
+			if i == 0 && f.rec {
+				c.Args = append(c.Args, g.smallInt(0, 4))
+				continue
+			}
 			c.Args = append(c.Args, g.expr(p, d-1))
 		}
 		g.feat("call")
@@ -450,6 +454,7 @@ func (g *G) loopStmt(bd, d int) []hs.Stmt {
 		v := g.fresh("i")
 		var iter hs.Expr
 		var vt hs.Type
+		var pre []hs.Stmt
 		if g.c.Strings && !g.c.off("for-str") && g.chance("forStr", 12) {
 			// iterate the characters of a string (a literal or a variable, so that one value can
 			// be iterated several times, also after an early exit)
@@ -475,17 +480,26 @@ func (g *G) loopStmt(bd, d int) []hs.Stmt {
 			iter = g.rangeExpr(1)
 			vt = hs.TInt
 			g.feat("for-range")
+			if _, isVar := iter.(hs.Ident); !isVar && !g.c.Pure && !g.c.off("range-var") && g.chance("rangeVarLoop", 30) {
+				// a range that outlives the loop: bound to a variable first, so that it can be iterated again
+				// (its iteration state must not survive a loop that was left early)
+				rv := g.fresh("rg")
+				pre = append(pre, hs.Let{Name: rv, X: iter})
+				g.declare(varInfo{name: rv, t: hs.TRange, noWrite: true})
+				iter = hs.Ident{Name: rv, T: hs.TRange}
+				g.feat("for-range-var")
+			}
 		}
 		g.push()
 		g.declare(varInfo{name: v, t: vt, noWrite: true})
 		body := g.block(bd-1, nb)
 		g.pop()
-		out := []hs.Stmt{hs.For{Var: v, Iter: iter, Body: body}}
+		out := append(pre, hs.For{Var: v, Iter: iter, Body: body})
 		if id, isVar := iter.(hs.Ident); isVar && !(g.inExpr > 0 && g.c.off("exit-pending")) && g.chance("iterTwice", 40) {
 			// leave the first loop early, then iterate the same value again: the iteration state of a
 			// value must not survive a loop (snapshot semantics)
 			early := hs.ExprStmt{X: &hs.If{Cond: g.expr(hs.TBool, 1), Then: &hs.Block{Stmts: []hs.Stmt{hs.Break{}}, T: hs.TNull}, T: hs.TNull}}
-			f0 := out[0].(hs.For)
+			f0 := out[len(out)-1].(hs.For)
 			f0.Body.Stmts = append([]hs.Stmt{early}, f0.Body.Stmts...)
 			v2 := g.fresh("j")
 			pr := hs.ExprStmt{X: hs.Call{Fn: hs.Ident{Name: "println"}, Args: []hs.Expr{hs.StrLit{V: "again"}, hs.Ident{Name: v2, T: vt}}, T: hs.TNull}}
@@ -531,6 +545,15 @@ type FnSig struct {
 	Name   string
 	Params []hs.Type
 	Ret    hs.Type
+	Rec    bool // recursive: the first parameter is the recursion depth (callers pass 0..4)
+}
+
+// DrawArg draws the i-th argument of a host call of f.
+func DrawArg(t *rapid.T, f FnSig, i int) hs.Value {
+	if f.Rec && i == 0 {
+		return hs.IntV(int64(rapid.IntRange(0, 4).Draw(t, "recDepth")))
+	}
+	return DrawValue(t, f.Params[i])
 }
 
 type Generated struct {
@@ -620,6 +643,10 @@ func Program(t *rapid.T, c Cfg) *Generated {
 
 	nf := g.intn("nFns", 0, c.MaxFns)
 	for i := 0; i < nf; i++ {
+		if !c.off("recursion") && c.MaxFns > 1 && g.chance("recursiveFn", 18) {
+			m.Fns = append(m.Fns, g.recFnDefs(fmt.Sprintf("rec%d", i))...)
+			continue
+		}
 		m.Fns = append(m.Fns, g.fnDef(fmt.Sprintf("f%d", i), false))
 	}
 	m.Fns = append(m.Fns, g.fnDef("main", true))
@@ -640,8 +667,135 @@ func Program(t *rapid.T, c Cfg) *Generated {
 	out.Prog = &hs.Program{Entry: "main", Modules: []*hs.Module{m}}
 	out.Feat = g.Feat
 	for _, f := range g.fns {
-		out.Fns = append(out.Fns, FnSig{Name: f.name, Params: f.params, Ret: f.ret})
+		out.Fns = append(out.Fns, FnSig{Name: f.name, Params: f.params, Ret: f.ret, Rec: f.rec})
 	}
+	return out
+}
+
+// recFnDefs: a directly recursive function, or a pair of mutually recursive ones. The first parameter
+// is the recursion depth (callers pass 0..4, every recursive call passes n - 1); the recursive call sits
+// bare, inside a try block (whose handler must catch what deeper activations throw - and only that), or
+// twice (tree recursion). Each activation prints its depth on the way down and on the way up, so a frame
+// that is resumed wrongly shows.
+func (g *G) recFnDefs(name string) []hs.FnDef {
+	mutual := g.chance("mutualRec", 35)
+	names := []string{name}
+	if mutual {
+		names = append(names, name+"b")
+	}
+	ret := hs.TNull
+	if g.chance("recHasRet", 60) {
+		ret = hs.TInt
+		if g.c.Strings && g.chance("recRetStr", 30) {
+			ret = hs.TStr
+		}
+	}
+	var extra []hs.Type
+	if g.chance("recExtraParam", 50) {
+		extra = append(extra, g.scalarType())
+	}
+	nT := hs.TInt
+	params := append([]hs.Type{nT}, extra...)
+	var out []hs.FnDef
+	for fi, fname := range names {
+		callee := names[(fi+1)%len(names)]
+		f := hs.FnDef{Name: fname, Ret: ret, Params: []hs.Param{{Name: "n", T: nT}}}
+		g.nvar = 0
+		g.budget = 90
+		g.scopes = g.scopes[:1]
+		g.push()
+		g.declare(varInfo{name: "n", t: nT, noWrite: true})
+		for i, pt := range extra {
+			pn := fmt.Sprintf("p%d", i)
+			f.Params = append(f.Params, hs.Param{Name: pn, T: pt})
+			g.declare(varInfo{name: pn, t: pt})
+		}
+		rt := ret
+		g.retT = &rt
+		g.inFn = fname
+		g.inLoop = 0
+		nId := hs.Ident{Name: "n", T: nT}
+		say := func(tag string) hs.Stmt {
+			return hs.ExprStmt{X: hs.Call{Fn: hs.Ident{Name: "println"}, Args: []hs.Expr{hs.StrLit{V: fname + " " + tag}, nId}, T: hs.TNull}}
+		}
+		recCall := func(dec int64) hs.Call {
+			c := hs.Call{Fn: hs.Ident{Name: callee, T: hs.TFn(ret, params...)}, T: ret,
+				Args: []hs.Expr{hs.Infix{Op: "-", L: nId, R: hs.IntLit{V: dec}, T: hs.TInt}}}
+			for _, pt := range extra {
+				c.Args = append(c.Args, g.expr(pt, 1))
+			}
+			return c
+		}
+		body := &hs.Block{T: ret}
+		body.Stmts = append(body.Stmts, say("down"))
+		// base case
+		base := &hs.Block{T: hs.TNull}
+		if g.c.Throws && !g.c.Pure && g.chance("recBaseThrow", 45) {
+			base.Stmts = append(base.Stmts, g.throwStmt(1, true))
+		}
+		if ret.K == hs.KNull {
+			base.Stmts = append(base.Stmts, hs.Return{})
+		} else {
+			base.Stmts = append(base.Stmts, hs.Return{X: g.expr(ret, 1)})
+		}
+		body.Stmts = append(body.Stmts, hs.ExprStmt{X: &hs.If{Cond: hs.Infix{Op: "<=", L: nId, R: hs.IntLit{V: 0}, T: hs.TBool}, Then: base, T: hs.TNull}})
+		if g.chance("recPre", 50) {
+			body.Stmts = append(body.Stmts, g.stmt(1)...)
+		}
+		// the recursive step
+		use := func(c hs.Call) []hs.Stmt {
+			if ret.K == hs.KNull {
+				return []hs.Stmt{hs.ExprStmt{X: c}}
+			}
+			v := g.fresh("rv")
+			g.declare(varInfo{name: v, t: ret})
+			return []hs.Stmt{hs.Let{Name: v, X: c}, hs.ExprStmt{X: hs.Call{Fn: hs.Ident{Name: "println"}, Args: []hs.Expr{hs.StrLit{V: fname + " got"}, hs.Ident{Name: v, T: ret}}, T: hs.TNull}}}
+		}
+		switch shape := g.pick("recShape", 4); {
+		case shape <= 1 && g.c.Throws && !g.c.Pure:
+			ev := g.fresh("e")
+			g.push()
+			tb := &hs.Block{T: hs.TNull}
+			tb.Stmts = append(tb.Stmts, use(recCall(1))...)
+			if g.chance("recThrowAfterCall", 40) {
+				tb.Stmts = append(tb.Stmts, g.throwStmt(1, true))
+			}
+			g.pop()
+			cb := &hs.Block{T: hs.TNull, Stmts: []hs.Stmt{hs.ExprStmt{X: hs.Call{Fn: hs.Ident{Name: "println"}, Args: []hs.Expr{hs.StrLit{V: fname + " caught"}, nId, hs.Member{X: hs.Ident{Name: ev, T: errObjT}, Name: "message", T: hs.TStr}}, T: hs.TNull}}}}
+			if g.chance("recRethrow", 25) {
+				cb.Stmts = append(cb.Stmts, hs.ExprStmt{X: &hs.If{Cond: hs.Infix{Op: "==", L: hs.Infix{Op: "%", L: nId, R: hs.IntLit{V: 2}, T: hs.TInt}, R: hs.IntLit{V: 0}, T: hs.TBool},
+					Then: &hs.Block{T: hs.TNull, Stmts: []hs.Stmt{hs.ExprStmt{X: hs.Call{Fn: hs.Ident{Name: "throw"}, Args: []hs.Expr{hs.StrLit{V: "again"}}, T: hs.TNever}}}}, T: hs.TNull}})
+			}
+			body.Stmts = append(body.Stmts, hs.ExprStmt{X: &hs.Try{Body: tb, CatchVar: ev, Catch: cb, T: hs.TNull}})
+			g.feat("recursion-in-try")
+		case shape == 2:
+			g.push()
+			body.Stmts = append(body.Stmts, use(recCall(1))...)
+			body.Stmts = append(body.Stmts, use(recCall(2))...)
+			g.pop()
+			g.feat("recursion-tree")
+		default:
+			g.push()
+			body.Stmts = append(body.Stmts, use(recCall(1))...)
+			g.pop()
+			g.feat("recursion-plain")
+		}
+		if g.chance("recPost", 50) {
+			body.Stmts = append(body.Stmts, g.stmt(1)...)
+		}
+		body.Stmts = append(body.Stmts, say("up"))
+		if ret.K != hs.KNull {
+			body.Tail = g.expr(ret, 2)
+		}
+		g.pop()
+		f.Body = body
+		out = append(out, f)
+	}
+	g.fns = append(g.fns, fnInfo{name: names[0], params: params, ret: ret, rec: true})
+	if mutual {
+		g.feat("recursion-mutual")
+	}
+	g.feat("recursion")
 	return out
 }
 
